@@ -313,13 +313,9 @@ func checkStopper(r *Report, rule, key, done string) {
 	var specs = map[string]stopperSpec{
 		"field:Store.closed": {doneField: "Store.closed", fn: [2]string{"S", "(*Store).Close"}, stopField: "Store.closing",
 			notStarted: func(fn *ssa.Function) []Edge {
-				// `running` local copy read under stateLk: edges where the loaded Store.running value is false
-				return condEdges(fn, func(cond ssa.Value) (bool, bool) {
-					if fieldOfLoad(cond) == "Store.running" {
-						return false, true
-					}
-					return false, false
-				})
+				// `running` copy read under stateLk: edges where the loaded Store.running value is false
+				// (a helper that reports it may also answer false when the store was not open at all)
+				return flagEdges(fn, []string{"Store.running", "Store.open"}, false)
 			},
 			releaseIn: [][2]string{{"S", "(*Store).Close"}}},
 		"field:Index.gcDone": {doneField: "Index.gcDone", fn: [2]string{"I", "(*Index).Close"}, stopField: "Index.gcStop",
@@ -522,6 +518,7 @@ func init() {
 		ruleComponentClearsCache(r, "close-mustcall")
 		ruleFCCloseGuard(r)
 		ruleFCClient(r)
+		r.support([]string{"fc-refs", "fc-identity", "fc-removed-writes", "erruse"})
 	},
 		"Decides structural necessary conditions of 'Close stops everything and releases every resource', not goroutine/descriptor counts: for every go statement in the module (inventory, min 5) the goroutine begins with defer close(done), its loop has a stop case that never re-enters the loop, GC supervisors cancel the cycle context and wait for a running cycle on stop, the go statement is the last fallible step of its spawner, and a stopper closes the stop channel before waiting for done, with every flush/file-close/snapshot in the stopper reachable only behind that wait (or the never-started edge); Store.Close reaches every component Close on all paths; OpenStore and the inner Open functions release what they acquired before every error return reachable after the acquisition; cache handles are returned and only closed by their last holder. Not covered: a writer blocked in flushTick while Close runs, transient handles on fault paths inside upgrade/remap helpers, actual counts.",
 		"started-indicators (Store.running, Index.gcStop, MultihashPrimary.gc) are the ones assigned next to the go statements")
